@@ -10,7 +10,12 @@ VARIABLE i
 Init == i = 2
 Next == i <= Len(Rec) /\ i' = i + 1
 
-TabOf(r) == IF "table" \in DOMAIN r THEN r.table ELSE T0
+(* For the mirror of the built-in value table the flag `comm` of the implementation is not taken on trust: only   *)
+(* operators that really are associative and commutative on values may be regrouped (+ * | & XOR && || dot).      *)
+ValAC == {<<43>>, <<42>>, <<124>>, <<38>>, <<88, 79, 82>>, <<38, 38>>, <<124, 124>>, <<100, 111, 116>>}
+RawTab(r) == IF "table" \in DOMAIN r THEN r.table ELSE T0
+TabOf(r) == LET T == RawTab(r) IN
+            IF "semtab" \in DOMAIN r THEN [j \in 1..Len(T) |-> [T[j] EXCEPT !.comm = @ /\ T[j].name \in ValAC]] ELSE T
 
 Opaque(run) == "opaque" \in DOMAIN run      \* entry points over the built-in tables: only the outcome is recorded
 RunWf(T, d, vs, run) ==
